@@ -2,7 +2,7 @@ package main
 
 func init() {
 	register(PropSpec{ID: "C14", Harnesses: []HarnessSpec{
-		{Name: "estimate", Pkg: "chain", Files: []string{"chain/common.go", "chain/c12_units.go", "chain/c12_block.go", "chain/c14_estimate.go"}, Entry: "VerifC14Estimate", IntMode: true, QueryMs: [2]int{60000, 120000},
+		{Name: "estimate", Pkg: "chain", Files: []string{"chain/common.go", "chain/c12_units.go", "chain/c12_block.go", "chain/c14_estimate.go"}, Entry: "VerifC14Estimate", IntMode: true, QueryMs: [2]int{60000, 120000}, NoXCheck: true,
 			Reach: []string{"generated"},
 			Redirects: map[string]string{
 				"github.com/ava-labs/hypersdk/chain.NewTxData":       "c14NewTxData",
